@@ -60,6 +60,7 @@ import (
 	"pgregory.net/rapid"
 
 	"zrntverif/report"
+	"zrntverif/sim"
 )
 
 // ---------------------------------------------------------------- case value
@@ -924,7 +925,7 @@ func TestCheck(t *testing.T) {
 	debug.SetMaxStack(64 << 20) // runaway recursion dies fast instead of eating the machine
 	r := report.Begin("C16")
 	defer r.Finish()
-	r.Rule("histories of <=40 actions over a forest of cache handles (new from registry/empty; AddValidator with index next/known/beyond x key fresh/fresh-but-on-another-history/same/at-a-later-index; chains sharing a handle one behind the other running the deposit protocol; far lookups); after every action every live handle is swept over indices 0..max+1 and all 8 keys. non-trivial = >=1 fork-out and >=1 lookup on a forked handle of a key that exists only on another history of its tree; distinct key = (forest shape: parent@fork-index+length per handle, ordered list of conflict kinds)")
+	r.Rule("histories of <=40 actions over a forest of cache handles (new from registry/empty; AddValidator with index next/known/beyond x key fresh/fresh-but-on-another-history/same/at-a-later-index; chains sharing a handle one behind the other running the deposit protocol; far lookups) plus pairs of real beacon states sharing one handle and processing deposits through phase0.ProcessDeposit (different keys / same history one behind / same keys reordered); after every action every live handle is swept over indices 0..max+1 and all 8 keys. non-trivial = >=1 fork-out and >=1 lookup on a forked handle of a key that exists only on another history of its tree; distinct key = (forest shape: parent@fork-index+length per handle, ordered list of conflict kinds)")
 	r.Assume("the model (pkmodel.go): a handle is a mutable, shared sequence of distinct keys; add = append in place | no-op | new handle h[:i]+[k] | error beyond next",
 		"a key already present at an EARLIER index of the same history (real callers top up instead) may be passed to AddValidator: the only outcome consistent with handles being sequences of distinct keys is an error that changes nothing",
 		"registries have distinct pubkeys (state invariant)",
@@ -932,6 +933,17 @@ func TestCheck(t *testing.T) {
 		"single goroutine per case: concurrent use of a shared handle is C17's subject",
 		"alphabet = compressed pubkeys of secret keys 1..8; the cache never decompresses on the checked paths")
 	replay := func(raw json.RawMessage) *report.Failure {
+		var probe struct {
+			Conflict bool `json:"conflict"`
+		}
+		json.Unmarshal(raw, &probe)
+		if probe.Conflict {
+			var cc sim.ConflictCase
+			if err := json.Unmarshal(raw, &cc); err != nil {
+				return report.Failf("harness", "bad case: %v", err)
+			}
+			return runDeposits(r, &cc)
+		}
 		var c Case
 		if err := json.Unmarshal(raw, &c); err != nil {
 			return report.Failf("harness", "bad case: %v", err)
@@ -945,7 +957,7 @@ func TestCheck(t *testing.T) {
 	if r.Replay != "" {
 		return
 	}
-	r.Mandatory(mMoved, mForkFork, mSibLook, mBehind, mInherit, mSibAdd, mBeyond, mNoop)
+	r.Mandatory(mMoved, mForkFork, mSibLook, mBehind, mInherit, mSibAdd, mBeyond, mNoop, mDeposits)
 
 	execute := func(c *Case) *report.Failure {
 		r.Inflight(c)
@@ -973,6 +985,18 @@ func TestCheck(t *testing.T) {
 			return
 		}
 	}
+	// The cache as real chains use it: two beacon states (CopyState + EpochsContext.Clone) share one handle
+	// and process deposits through phase0.ProcessDeposit — different new keys at the same indices, the same
+	// history one behind the other, or the same keys in another order. After every block each chain's
+	// handle must answer exactly along its own state's registry.
+	if only == "" || only == "process-deposit" {
+		if !r.Search(t, "process-deposit/two-chains-one-cache", sub+1, r.N(160, 1600), func(rt *rapid.T) (any, *report.Failure) {
+			c := sim.GenConflictCase(rt)
+			return c, runDeposits(r, c)
+		}) {
+			return
+		}
+	}
 	if only != "" && only != "random" {
 		return
 	}
@@ -980,6 +1004,27 @@ func TestCheck(t *testing.T) {
 		c := genRandom(rt)
 		return c, execute(c)
 	})
+}
+
+const mDeposits = "process-deposit:two-chains-one-cache"
+
+func runDeposits(r *report.Run, c *sim.ConflictCase) *report.Failure {
+	res := sim.RunConflict(c)
+	r.Eval(int64(res.Evals))
+	switch {
+	case res.Sig == "conflict/diverge" || res.Sig == "conflict/panic" || res.Sig == "epc-stale:pubkey-cache":
+		return report.Failf("process-deposit/"+res.Sig, "%s", res.Msg)
+	case res.Sig != "":
+		r.Class("process-deposit:other-property(" + res.Sig + ")") // C08's subject
+		return nil
+	}
+	if res.NonTrivial {
+		r.Hit(mDeposits)
+		r.Class("process-deposit:" + res.Class)
+		r.NonTrivial(fmt.Sprintf("process-deposit|%s|%d|%d|%d", res.Class, c.NewM, c.NewS, c.MaxDep))
+		r.Sample("process-deposit/"+res.Class, func() any { return c })
+	}
+	return nil
 }
 
 func account(r *report.Run, c *Case, o *obs) {
